@@ -309,7 +309,7 @@ def run_case(es, rec):
                     for asn in con.assertions.values():
                         asn.mvrs_to_data(m, c)      # (the contract on mvrs_to_data decides which cards may contribute)
                 rec.count("sample_with_an_unnumbered_record_accepted")
-            except TypeError:
+            except (TypeError, ValueError):
                 rec.count("sample_with_an_unnumbered_record_refused")
             finally:
                 cv.sample_num = keep
